@@ -152,7 +152,8 @@ def h_roundtrip(H, method, anneal, a_prec=(8,), training=False, disable=False):
     a.train(training)
     b.train(training)
     ya, yb = a(x), b(x)                                 # the usual forward pass (samples the coefficients)
-    H.observe('ya', ya)
+    if not (method == 'mps' and disable):
+        H.observe('ya', ya)         # (a mixture of quantized branches with arbitrary stored coefficients sits on floor boundaries: float32 / float64 level flips)
     H.ensure('roundtrip:identical-outputs', H.eq(ya, yb))
     H.ensure('roundtrip:identical-cost', H.eq(H.scalar(a.get_cost()), H.scalar(b.get_cost())))
     sa, sb = a.summary(), b.summary()
